@@ -57,16 +57,17 @@ class Analysis:
             return (d, "notin", frozenset(v for v, tgt in term["vs"] if tgt != t))
         return (d, "in", frozenset(vals))
 
-    def atoms_at(self, bb, _depth=0):
+    def atoms_at(self, bb, _depth=0, drop_unfolded=False):
         dom_edges = list(self.dominating_edges(bb))
         out = [self.edge_atom(s, t) for (s, t) in dom_edges]
         if _depth >= 3:
             return out
+        unfolded = []
         # a boolean local that is only ever assigned constants outside loops (`let a = matches!(x, P);`, `let ok = cond;`
         # lowered to branches): `a` being true at a later test means the one block that assigns `true` was executed, so
         # the guards that dominate that block held — `if a && b { .. }` then reads like the nested `if let` form
         extra = []
-        for (d, rel, vals), (test_blk, _) in zip(out, dom_edges):
+        for oi_, ((d, rel, vals), (test_blk, _)) in enumerate(zip(out, dom_edges)):
             d0 = d
             while d0[0] in ("ref", "deref"):
                 d0 = d0[1]
@@ -95,6 +96,7 @@ class Analysis:
             if bi == bb:
                 continue
             extra += self.atoms_at(bi, _depth + 1)
+            unfolded.append(oi_)
             if x is not None:
                 # `a && b && c` as a value: the last operand is computed only when the others held, and is the value
                 self.terms._pos = (bi, si)
@@ -155,6 +157,9 @@ class Analysis:
             extra += self.atoms_at(match[0], _depth + 1)
         seen = set()
         res = []
+        if drop_unfolded and unfolded:
+            # the test on the boolean local itself says nothing more than the atoms it was unfolded into
+            out = [a for i_, a in enumerate(out) if i_ not in unfolded]
         for a in out + extra:
             k = (str(a[0]), a[1], tuple(sorted(a[2])) if hasattr(a[2], "__iter__") else a[2])
             if k not in seen:
